@@ -472,7 +472,7 @@ theorem QInv.step {c : Cfg} {s s' : State} {l : Lbl} (hq : QInv c s) (h : step c
     · split at h <;> try contradiction
       rename_i hp
       injection h with h; subst h
-      exact hq.popCells hp _
+      exact hq.popCells hp.1 _
     · split at h <;> try contradiction
       rename_i hp
       injection h with h; subst h
